@@ -955,6 +955,11 @@ func genSharedWrites(repo string) (string, error) {
 		fmt.Fprintf(&b, "(%s, %s)", swLeanStr(pr[0]), swLeanStr(pr[1]))
 	}
 	b.WriteString("]\n\n")
+	gv, err := swGlobalValueFacts(m, repo, cpPath)
+	if err != nil {
+		return "", err
+	}
+	b.WriteString(gv)
 	b.WriteString("end ScriggoV.Gen.SharedWrites\n")
 	return b.String(), nil
 }
